@@ -40,7 +40,18 @@ def same(a, b):
     if isinstance(a, tuple):
         return (len(a[1]) == len(b[1]) and
                 all(k1 == k2 and same(v1, v2) for (k1, v1), (k2, v2) in zip(a[1], b[1])))
+    if isinstance(a, str):
+        # Sem's numbers are integers without a negative zero: in text built from numbers the sign of
+        # a zero is not decided ("" + (-0) is "-0", Sem says "0")
+        return a == b or _unsigned_zeros(a) == _unsigned_zeros(b)
     return a == b
+
+
+_NEG_ZERO = __import__("re").compile(r"-0(?![0-9.eE])")
+
+
+def _unsigned_zeros(t):
+    return _NEG_ZERO.sub("0", t)
 
 
 def cps(s):
@@ -81,12 +92,12 @@ def compare(spec, r):
         if e["stage"] != "eval":
             return "disagree", f"specification says run-time failure ({kind}), implementation rejected the program at {e['stage']}: {e.get('kind')}"
         if kind == "explicit":
-            if e["kind"] == "ExplicitError" and e.get("msg") == cps(spec[2]):
+            if e["kind"] == "ExplicitError" and isinstance(e.get("msg"), str) and same(e.get("msg"), cps(spec[2])):
                 return "agree", "explicit"
             return "disagree", f"expected error {cps(spec[2])!r}, implementation reports {e['kind']} {e.get('msg')!r}"
         if kind == "assert":
             want = None if spec[2] == [-1] else cps(spec[2])
-            if e["kind"] == "AssertFailed" and e.get("msg") == want:
+            if e["kind"] == "AssertFailed" and (e.get("msg") == want or (isinstance(want, str) and isinstance(e.get("msg"), str) and same(e.get("msg"), want))):
                 return "agree", "assert"
             return "disagree", f"expected assertion failure {want!r}, implementation reports {e['kind']} {e.get('msg')!r}"
         if kind == "runtime":
